@@ -280,6 +280,7 @@ func (TMScenario) Execute(p kernel.Plan, rec *kernel.Rec) {
 			break
 		}
 	}
+	replicaCheck(rec, w.host, p.Cfg, "tm")
 	rec.AddSim(int64(w.now.Sub(start) / time.Second))
 }
 
